@@ -57,6 +57,10 @@ def main():
     if a.only:
         names = [n for n in names if n in a.only.split(",")]
     run_cases(chk, "vlib.dispatch", "dispatch_case", names, {"tier": a.tier}, a.jobs)
+    # random subdomain-id patterns (deterministic in VERIF_SEED)
+    rn = [f"randids:{chk.seed}:{i}" for i in range(16 if a.tier == "quick" else 200)] if not a.only else []
+    run_cases(chk, "vlib.dispatch", "dispatch_case", rn, {"tier": "quick"}, a.jobs)
+    chk.extra["random_id_patterns"] = len(rn)
     chk.encoded("ffcx.codegeneration.common.integral_data (real function, z3 Int ids, np.argsort stubbed by its contract)",
                 "emitted ufcx_form / ufcx_integral initialisers and the kernels they list")
     chk.bounds = {"stub shapes": len(shp), "integrals per type": "<= 2 (quick) / 3 (thorough), two types at a time, 1-2 domains each", "programs": len(names)}
